@@ -48,6 +48,12 @@ FAULTS = [
     [("resolved", 0), S, ("callStart",)], [("timer", "resolve"), S, ("callStart",)], [("cancel", "start"), S, ("callStart",)],
     [("sockDone", 0), S, ("callStart",)], [("reset",), S, S, ("callFinish",)], [("cancel", "finish"), S, ("callFinish",)],
     [("sockFault", "setsockopt")], [("sockFault", "getpeername")],
+    # a local disconnect that the caller gives up on (cancelled while it waits), then another close cause: the graceful
+    # disconnect HAD been initiated
+    [("cancel", "disc"), S, ("eof",)], [("cancel", "disc"), S, ("reset",), S], [("cancel", "disc"), S, ("data", ["garbage"])],
+    [("callDisc",), S, ("cancel", "disc"), S, ("eof",)], [("callDisc",), S, ("cancel", "disc"), S, ("reset",), S],
+    [("callDisc",), ("cancel", "disc"), S, ("setWrite", 0), ("data", ["pingreq"])],
+    [("callDisc",), S, ("cancel", "disc"), S, ("timer", "ping"), S, ("timer", "ping"), S, ("timer", "pong"), S],
 ]
 
 
@@ -265,6 +271,9 @@ def spec_c08(obs, lines, final_quiescent=True):
     closed_since = None
     for i, o in enumerate(obs[1:], 1):
         d = parse(o)
+        if d["disc"] == "done" and d["st"] != "closed":
+            # disconnect() is a close cause at any point of the life: once it has returned the connection is closed
+            return "not-closed-after-disconnect", i
         if d["st"] == "closed":
             timers = [x for x in d["timers"].strip("[]").split(" ") if x]
             if d["sock"] == "open":
